@@ -88,6 +88,12 @@ pub struct Interp<'a> {
     pub recvs: &'a [Recv],
 }
 
+impl<'a> Interp<'a> {
+    pub fn new(recvs: &'a [Recv]) -> Self {
+        Interp { recvs }
+    }
+}
+
 type Conv = Result<Value, Vec<Leaf>>;
 
 impl<'a> Interp<'a> {
@@ -403,7 +409,13 @@ impl<'a> Interp<'a> {
         None
     }
 
-    pub fn struct_finish(&self, r: &Recv, fs: &[Field], mut st: StructState, is_struct_body: bool) -> Conv {
+    pub fn struct_finish(&self, r: &Recv, fs: &[Field], st: StructState, is_struct_body: bool) -> Conv {
+        self.struct_finish_opt(r, fs, st, is_struct_body, true)
+    }
+
+    /// `apply_post = false`: element-level receivers with magic fields run the container transform
+    /// only after the body has been converted
+    pub fn struct_finish_opt(&self, r: &Recv, fs: &[Field], mut st: StructState, is_struct_body: bool, apply_post: bool) -> Conv {
         // the flatten member receives every unclaimed item, in order
         let mut flat_value: Option<Value> = None;
         if let Some(k) = fs.iter().position(|f| f.flatten) {
@@ -487,10 +499,25 @@ impl<'a> Interp<'a> {
             };
             m.insert(f.rust.clone(), v);
         }
-        // container-level transform, once, on the finished value
-        if is_struct_body && r.post != Post::None {
-            if let Some(a) = anchor_field(r) {
-                if let Ty::Sc(sc) = fs[a].ty {
+        let mut outer = serde_json::Map::new();
+        outer.insert(r.name(), Value::Object(m));
+        let v = Value::Object(outer);
+        if is_struct_body && apply_post {
+            self.container_post(r, v)
+        } else {
+            Ok(v)
+        }
+    }
+
+    /// container-level map / and_then: once, on the finished value
+    pub fn container_post(&self, r: &Recv, mut v: Value) -> Conv {
+        if r.post == Post::None {
+            return Ok(v);
+        }
+        let fs = r.fields();
+        if let Some(a) = anchor_field(r) {
+            if let Ty::Sc(sc) = fs[a].ty {
+                if let Some(m) = v.get_mut(r.name()).and_then(|o| o.as_object_mut()) {
                     let cur = m.get(&fs[a].rust).cloned().unwrap_or(Value::Null);
                     if r.post == Post::AndThen && cand_rejects(sc, &cur) {
                         return Err(vec![leaf(LeafKind::Custom, Where::Nowhere, "")]);
@@ -499,9 +526,7 @@ impl<'a> Interp<'a> {
                 }
             }
         }
-        let mut outer = serde_json::Map::new();
-        outer.insert(r.name(), Value::Object(m));
-        Ok(Value::Object(outer))
+        Ok(v)
     }
 
     /// the visible mark a `map` on the flatten member leaves on the member's anchor field
@@ -620,6 +645,19 @@ pub struct ElementEval {
 impl<'a> Interp<'a> {
     /// attribute layer of an element-level receiver (no magic fields other than `attrs`)
     pub fn element(&self, r: &Recv, attrs: &[Attr], attr_texts: &[String]) -> ElementEval {
+        self.element_with(r, attrs, attr_texts, vec![])
+    }
+
+    /// `extra`: further errors of the attribute layer (shape validation)
+    pub fn element_with(&self, r: &Recv, attrs: &[Attr], attr_texts: &[String], extra: Vec<Leaf>) -> ElementEval {
+        self.element_opt(r, attrs, attr_texts, extra, true)
+    }
+
+    pub fn element_with_deferred_post(&self, r: &Recv, attrs: &[Attr], attr_texts: &[String], extra: Vec<Leaf>) -> ElementEval {
+        self.element_opt(r, attrs, attr_texts, extra, false)
+    }
+
+    fn element_opt(&self, r: &Recv, attrs: &[Attr], attr_texts: &[String], extra: Vec<Leaf>, apply_post: bool) -> ElementEval {
         let fs = r.fields();
         let mut st = StructState::new(fs);
         let mut forwarded = vec![];
@@ -632,16 +670,16 @@ impl<'a> Interp<'a> {
         };
         let will_fwd_any = filter_nonempty && r.attrs_field.is_some();
         if will_parse_any || will_fwd_any {
-            for (i, a) in attrs.iter().enumerate() {
+            for a in attrs.iter() {
                 let key = attr_key(a);
                 if will_parse_any && r.attr_names.iter().any(|n| *n == key) {
-                    consumed.push(i);
+                    consumed.push(a.gid);
                     match &a.kind {
                         AttrKind::Word => {}
                         AttrKind::NameValue(_) => st.errors.push(Leaf {
                             kind: LeafKind::BadAttribute,
                             path: vec![],
-                            at: Where::Attr(i),
+                            at: Where::Attr(a.gid),
                             name: a.name.clone(),
                             alts: vec![],
                         }),
@@ -653,7 +691,7 @@ impl<'a> Interp<'a> {
                         AttrKind::Foreign(_) => st.errors.push(Leaf {
                             kind: LeafKind::BadAttribute,
                             path: vec![],
-                            at: Where::Attr(i),
+                            at: Where::Attr(a.gid),
                             name: a.name.clone(),
                             alts: vec![],
                         }),
@@ -667,12 +705,13 @@ impl<'a> Interp<'a> {
                         Fwd::None => false,
                     };
                     if fwd {
-                        forwarded.push(i);
+                        forwarded.push(a.gid);
                     }
                 }
             }
         }
-        let outcome = match self.struct_finish(r, fs, st, true) {
+        st.errors.extend(extra);
+        let outcome = match self.struct_finish_opt(r, fs, st, true, apply_post) {
             Ok(mut v) => {
                 if let Some(with) = r.attrs_field {
                     let val = if with {
